@@ -154,8 +154,8 @@ def rule_arms(chk, bp):
         if len(m["arms"]) < 2:
             continue
         for arm in m["arms"]:
-            cps = [a for a in F.exprs(arm["body"], "Adt") if short(a["adt"]) == "CompiledPipeline"]
-            sts = [a for a in F.exprs(arm["body"], "Adt") if short(a["adt"]) == "CompiledPipelineStage"]
+            cps = [a for a in F.exprs_with_closures(chk.facts, arm["body"], "Adt") if short(a["adt"]) == "CompiledPipeline"]
+            sts = [a for a in F.exprs_with_closures(chk.facts, arm["body"], "Adt") if short(a["adt"]) == "CompiledPipelineStage"]
             if cps and sts:
                 key = "+".join(sorted(F.pat_variant(x)[1] for x in F.pat_alternatives(arm["pat"]) if F.pat_variant(x)))
                 def src(e):
